@@ -31,8 +31,10 @@ Lemma post_tail_Z : forall l1 o1,
                  then zlen (trimLastInvalidRune (ztake (Z.of_nat o1) linestr)) else zlen linestr in
    (linestr, swidth (ztake offset linestr))) = post_tail l1 o1.
 Proof.
-  intros. unfold post_tail. cbv zeta. unfold ztake at 1, zlen at 1.
-  replace (Z.to_nat (Z.min 64 (Z.of_nat (length l1)))) with (Nat.min 64 (length l1)) by lia.
+  intros. unfold post_tail. cbv zeta.
+  assert (E : ztake (Z.min 64 (zlen l1)) l1 = firstn (Nat.min 64 (length l1)) l1).
+  { unfold ztake, zlen. f_equal. lia. }
+  rewrite E.
   set (ex := trimLastInvalidRune (firstn (Nat.min 64 (length l1)) l1)).
   unfold zlen. rewrite ztake_nat.
   destruct (Z.ltb_spec (Z.of_nat o1) (Z.of_nat (length ex))); destruct (Nat.ltb_spec o1 (length ex)); try lia;
@@ -47,14 +49,15 @@ Proof.
   assert (Hk : Z.min (Z.max (offset - 1) 0) (zlen lc) = Z.of_nat k) by (unfold k, zlen; lia).
   rewrite Hk.
   destruct (Z.ltb_spec 48 (Z.of_nat k)); destruct (Nat.ltb_spec 48 k); try lia.
-  - unfold ztake at 1. replace (Z.to_nat (Z.of_nat k - 48)) with (k - 48)%nat by lia.
+  - assert (E1 : ztake (Z.of_nat k - 48) lc = firstn (k - 48) lc) by (unfold ztake; f_equal; lia).
+    rewrite E1.
     set (X := trimLastInvalidRune (firstn (k - 48) lc)).
     assert (length X <= k - 48)%nat.
     { unfold X. etransitivity; [apply trim_length_le|]. rewrite firstn_length. lia. }
-    unfold zlen at 1 2. rewrite zdrop_nat.
-    replace (Z.of_nat k - Z.of_nat (length X)) with (Z.of_nat (k - length X)) by lia.
-    apply post_tail_Z.
-  - apply post_tail_Z.
+    assert (E2 : zdrop (zlen X) lc = skipn (length X) lc) by (unfold zlen; apply zdrop_nat).
+    assert (E3 : Z.of_nat k - zlen X = Z.of_nat (k - length X)) by (unfold zlen; lia).
+    rewrite E2, E3. exact (post_tail_Z _ _).
+  - exact (post_tail_Z _ _).
 Qed.
 
 (* ---- any bytes -------------------------------------------------------------------------------- *)
@@ -64,7 +67,7 @@ Proof. intros. rewrite app_assoc, <- H. symmetry. apply firstn_skipn. Qed.
 Lemma skipn_prefix : forall (w r : list N), skipn (length w) (w ++ r) = r.
 Proof. apply skipn_app_len. Qed.
 
-Lemma post_tail_any : forall pre l1 o1 ex col,
+Lemma post_tail_any : forall (pre : list N) l1 o1 ex col,
   post_tail l1 o1 = (ex, col) -> (o1 <= length l1)%nat ->
   ((pre = [] /\ o1 <= 48) \/ (48 <= o1 <= 51))%nat ->
   exists w r post,
